@@ -67,17 +67,18 @@ pub fn ref_unproj(x: f64, y: f64) -> (f64, f64) {
 /// All images, in the projection plane, of the sphere point whose projection is (x, y):
 /// the point itself; its mirror image about the facet boundary when it lies on a polar-cap seam;
 /// the four facet apexes when it is a pole.  (Images x +- 8 are handled by `wrap8`.)
-pub fn images(x: f64, y: f64) -> ([(f64, f64); 4], usize) {
-  let mut out = [(x, y); 4];
+pub fn images(x: f64, y: f64) -> ([(f64, f64); 5], usize) {
+  let mut out = [(x, y); 5];
   let mut n = 1;
   let ay = y.abs();
   if ay > 1.0 {
     let t = 2.0 - ay;
     if t <= TOL_SEAM {
+      // (the point itself stays the first image: it is not the pole unless t = 0)
       for q in 0..4 {
-        out[q] = (2.0 * q as f64 + 1.0, y);
+        out[q + 1] = (2.0 * q as f64 + 1.0, y);
       }
-      return (out, 4);
+      return (out, 5);
     }
     let q = (x * 0.5).floor();
     let d = x - 2.0 * q - 1.0;
